@@ -234,6 +234,7 @@ func (s *stats) labels() []string {
 	add(z.manyStream, "response-with>=1000-updates-after-sync")
 	add(z.maxUpdates >= 5000, "response-with>=5000-updates")
 	add(z.over4Atomic, "atomic-container>4MiB")
+	add(z.over16Atomic, "atomic-container>16MiB")
 	add(z.over4WhileObserved, "response>4MiB-while-an-observer-streams")
 	add(z.resentOnAgain, "response>4MiB-on-a-later-stream")
 	add(z.maxValue >= mib/2, "value>=512KiB")
